@@ -31,8 +31,8 @@ CHECKS = {
    "The input dimension is ordinary seeded generation (all byte values, float specials, boundary lengths); only the delivery schedule is simulation. Specifications are the harness author's reading of the docs.",
    "seeded generation + reference model under simulated delivery schedules", "5/C10"),
  "C11": ("rig", "exploration",
-   "FIR, FFT filter (complex and real), Hilbert, single-pole IIR, quadrature demodulators are compared with f64 reference arithmetic within stated rounding bounds under both delivery modes; decimation phase is anchored at sample 0.",
-   "Rounding bounds: 64*eps*sum|tap*x| for dot products, 32*eps*log2(N)*sum|taps|*max|x| for FFT convolution. Scalar build only unless the AVX flavour is built (thorough).",
+   "FIR, FFT filter (complex and real), Hilbert, single-pole IIR, quadrature demodulators are compared with f64 reference arithmetic within stated rounding bounds under both delivery modes; decimation phase is anchored at sample 0. One run in six compares the dot-product kernels directly (generic, and filter_float = the AVX kernel on the AVX build flavour) with f64 and checks generated Hamming low-pass taps for odd length, symmetry and unit DC gain.",
+   "Rounding bounds: 64*eps*sum|tap*x| for dot products, 32*eps*log2(N)*sum|taps|*max|x| for FFT convolution. Runs twice when the CPU has AVX: on the default build and on a build with -C target-feature=+avx,+sse3 (the AVX kernel in src/fir.rs is selected at compile time); the portable-simd kernel (nightly, feature simd) is not built.",
    "seeded generation + f64 reference under simulated delivery schedules", "5/C11"),
  "C12": ("rig", "exploration",
    "Inputs carry tags at seeded absolute indices (clustered where the drip schedule cuts); output tags are collected at consume time and compared as a multiset with the mapped input tags (identity, +delay, -skip, index/decimation) plus the tags each block is specified to add.",
@@ -120,7 +120,7 @@ def main():
     na = [{"property_id": p, "reason": PENDING_REASON} for p in props if p not in CHECKS]
     m = {
         "version": 1,
-        "setup_cmd": "cd /verif/sim && CARGO_NET_OFFLINE=true cargo build --release --offline",
+        "setup_cmd": "cd /verif && ./vcheck setup",
         "hooks": {
             "guard": "cargo feature verif_hooks (off by default)",
             "enable": "the simulator crate /verif/sim depends on /repo by path with features = [\"verif_hooks\"]; ./vcheck rebuilds it from /repo's working tree before every check",
